@@ -304,7 +304,7 @@ impl Prop for C07 {
         let hs: Vec<(i64, i64)> = if quick {
             vec![(0, 2), (1, 2), (2, 1), (3, 2), (4, 2), (5, 1), (8, 1), (9, 2), (10, 1)]
         } else {
-            vec![(0, 3), (1, 3), (2, 2), (3, 3), (4, 3), (5, 2), (6, 2), (7, 3), (8, 1), (9, 3), (10, 2)]
+            vec![(0, 3), (1, 3), (2, 2), (3, 3), (4, 3), (5, 2), (6, 2), (7, 3), (8, 1), (9, 2), (10, 2)]
         };
         v.push(Scope::new("pair-histories", "every ordered pair (X, Y) of a 100-drawing alphabet (the quadrants of every catalogue circle, rounded tabs, the history alphabet): Y converted immediately after X in one process, compared with Y alone in a fresh process", |f| {
             for x in 0..pair_alphabet().len() {
@@ -496,8 +496,11 @@ impl Prop for C07 {
                         (t, outs)
                     }));
                 }
-                for h in hs {
-                    let (t, outs) = match h.join() {
+                // join every thread before judging: a thread left running would still use the tables that the next
+                // case of this worker resets
+                let joined: Vec<_> = hs.into_iter().map(|h| h.join()).collect();
+                for j in joined {
+                    let (t, outs) = match j {
                         Ok(x) => x,
                         Err(_) => {
                             cx.fail("free-running", "a free-running thread panicked".into());
